@@ -438,6 +438,9 @@ struct Scope {
     i: usize,
     l: usize,
     g: usize,
+    /// quick 3-gate family: the first two gates range over leaf literals (constants, inputs,
+    /// latches) only, the third over every literal; roots = both polarities of the third gate
+    leaf: bool,
 }
 
 /// All literals of the scope: constants, both polarities of every variable, plus an undefined variable.
@@ -496,7 +499,52 @@ fn graph_from_json(v: &Value) -> G {
 /// Number of gate input assignments of a scope.
 fn scope_size(sc: &Scope) -> usize {
     let nl = scope_literals(sc.i + sc.l + sc.g).len();
+    if sc.leaf {
+        let leaves = 2 + 2 * (sc.i + sc.l);
+        return (leaves * leaves).pow(2) * nl * nl;
+    }
     (nl * nl).pow(sc.g as u32)
+}
+
+/// The 3-gate leaf family (see `Scope::leaf`).
+fn check_leaf_assignment<L: LitName>(sc: &Scope, idx: usize, acc: &mut Report) {
+    let nvars = sc.i + sc.l + 3;
+    let lits = scope_literals(nvars);
+    let nl = lits.len();
+    let leaves: Vec<usize> = (0..2 + 2 * (sc.i + sc.l)).collect();
+    let nleaf = leaves.len();
+    let gv = |k: usize| 1 + sc.i + sc.l + k;
+    let mut x = idx;
+    let mut gates = Vec::new();
+    for k in 0..2 {
+        let p = x % (nleaf * nleaf);
+        x /= nleaf * nleaf;
+        gates.push((2 * gv(k), leaves[p / nleaf], leaves[p % nleaf]));
+    }
+    let p = x % (nl * nl);
+    gates.push((2 * gv(2), lits[p / nl], lits[p % nl]));
+    acc.states += 1;
+    for pol in 0..2 {
+        for reversed in [false, true] {
+            let mut gs = gates.clone();
+            if reversed {
+                gs.reverse();
+            }
+            let top = 2 * gv(2) + pol;
+            let g = G {
+                max_var: nvars + 1,
+                inputs: (1..=sc.i).map(|v| 2 * v).collect(),
+                latches: (0..sc.l).map(|k| (2 * (1 + sc.i + k), top ^ 1, [None, Some(true)][k % 2])).collect(),
+                gates: gs,
+                outputs: vec![top],
+                bad: vec![],
+                constraints: vec![],
+                fairness: vec![],
+                justice: vec![],
+            };
+            check_graph::<L>(&g, acc, "leaf3");
+        }
+    }
 }
 
 /// Check one gate input assignment of a scope with every root, order, numbering and configuration.
@@ -532,8 +580,8 @@ fn check_assignment<L: LitName>(sc: &Scope, tier: Tier, idx: usize, acc: &mut Re
     // roots: every literal r, (a) in the output list only, (b) in every list and as every latch's next state
     for (ri, &r) in lits.iter().enumerate() {
         for mode in 0..2 {
-            if mode == 0 && ((sc.l > 0 && sc.g > 1) || sc.g > 2) {
-                continue; // the richer mode (b) subsumes (a) there; keeps the product in check
+            if mode == 0 && sc.g > 2 {
+                continue; // the richer mode (b) is used there; keeps the product in check
             }
             let mut g = base.clone();
             let other = lits[(ri + 3) % nl];
@@ -561,6 +609,18 @@ fn check_assignment<L: LitName>(sc: &Scope, tier: Tier, idx: usize, acc: &mut Re
                         continue;
                     }
                     check_graph::<L>(&h, acc, "scope");
+                }
+            }
+            // (c) every ordered pair of root literals (identity numbering and gate order): the
+            // first root's cone is already transferred when the second one is visited
+            if mode == 0 && sc.g >= 1 && sc.g <= 2 {
+                for &r2 in lits.iter().filter(|&&c| (c >> 1) > sc.i + sc.l && (c >> 1) <= nvars) {
+                    // second root: both polarities of every gate
+                    let mut h = base.clone();
+                    h.latches = (0..sc.l).map(|k| (2 * (1 + sc.i + k), r2, [Some(false), Some(true), None][(ri + k) % 3])).collect();
+                    h.outputs = vec![r, r2];
+                    h.max_var = nvars + 1;
+                    check_graph::<L>(&h, acc, "pair");
                 }
             }
             // every permutation of the variable indices (small scopes)
@@ -715,7 +775,7 @@ fn scopes(max_gates: usize) -> Vec<Scope> {
                 if g == 3 && i + l > 1 {
                     continue;
                 }
-                v.push(Scope { i, l, g });
+                v.push(Scope { i, l, g, leaf: false });
             }
         }
     }
@@ -727,12 +787,19 @@ fn units(tier: Tier) -> Vec<Unit> {
     let plan: Vec<(&'static str, usize)> = tier.pick(vec![("u32", 2), ("u8", 1)], vec![("u32", 3), ("u8", 2), ("usize", 2)]);
     for (lit, max_gates) in plan {
         u.push(Unit::Redef(lit));
-        for sc in scopes(max_gates) {
+        let mut scs = scopes(max_gates);
+        if max_gates == 2 && lit == "u32" {
+            // quick tier: the 3-gate leaf family (two leaf gates that may coincide + one parent)
+            for (i, l) in [(2usize, 0usize), (1, 1), (1, 0), (0, 1)] {
+                scs.push(Scope { i, l, g: 3, leaf: true });
+            }
+        }
+        for sc in scs {
             let n = scope_size(&sc);
             let block = 16;
             let mut s = 0;
             while s < n {
-                u.push(Unit::Block(lit, sc.i, sc.l, sc.g, s, block.min(n - s)));
+                u.push(Unit::Block(lit, sc.i, sc.l, if sc.leaf { 30 } else { sc.g }, s, block.min(n - s)));
                 s += block;
             }
         }
@@ -749,8 +816,17 @@ fn run_unit(u: &Unit, tier: Tier, rep: &mut Report) {
             _ => redefinitions::<u32>(rep),
         },
         Unit::Block(lit, i, l, g, s, n) => {
-            let sc = Scope { i: *i, l: *l, g: *g };
+            let leaf = *g == 30;
+            let sc = Scope { i: *i, l: *l, g: if leaf { 3 } else { *g }, leaf };
             for idx in *s..*s + *n {
+                if leaf {
+                    match *lit {
+                        "u8" => check_leaf_assignment::<u8>(&sc, idx, rep),
+                        "usize" => check_leaf_assignment::<usize>(&sc, idx, rep),
+                        _ => check_leaf_assignment::<u32>(&sc, idx, rep),
+                    }
+                    continue;
+                }
                 match *lit {
                     "u8" => check_assignment::<u8>(&sc, tier, idx, rep),
                     "usize" => check_assignment::<usize>(&sc, tier, idx, rep),
